@@ -836,6 +836,8 @@ def r11_19(ctx) -> None:
 
 def run(ctx) -> None:
     from .c19 import r19_1 as _r19_1
+    from .c13 import r13_4 as _r13_4
+    ctx.guard_as("R11.24", _r13_4)  # "exporting it returns the members that were given": ensure_kid writes a kid only where none is PRESENT (an empty kid that was given stays)
     ctx.guard_as("R11.23", _r19_1)  # "unpadded base64url": every encoder call of the package is the padding-stripping one
     ctx.guard(r11_22)
     from .c15 import r15_3 as _r15_3
